@@ -159,6 +159,17 @@ func runC13(c *Ctx, idx int, o *Obs) {
 				}
 			}
 		}
+		// a labelled root (e.g. an outgroup-rooted tree whose root was named) must keep its name as well
+		if r.Intn(3) == 0 {
+			for {
+				s := c13Name(r)
+				if !used[s] && !gen.NumericLooking(s) {
+					used[s] = true
+					m.Root.Name = s
+					break
+				}
+			}
+		}
 		models = append(models, m)
 		texts = append(texts, m.Newick())
 		hasInner, hasSup := false, false
